@@ -227,7 +227,11 @@ class ModelReplayer:
                     import qubovert as _qv
                     form = (len(self.slots[1]) + len(self.slots[2]) + v) % 3        # deterministic variety: dict / PUBO|PUSO / PCBO|PCSO
                     arg = P if form == 0 else ((_qv.PUSO if spin else _qv.PUBO)(P) if form == 1 else (_qv.PCSO if spin else _qv.PCBO)(P))
-                    getattr(obj, "add_constraint_%s_zero" % rel)(arg, lam=2)
+                    kw = {}
+                    if not spin and v == 1 and (len(self.slots[1]) + len(self.slots[2])) % 2 == 1:
+                        # same single slack bit through the unary-slack special case (2x <= 1 with min(2x) = 0)
+                        kw["log_trick"] = False
+                    getattr(obj, "add_constraint_%s_zero" % rel)(arg, lam=2, **kw)
                     # the recorded constraint must not alias the argument: mutate the argument afterwards
                     arg[("__poked__",)] = 3
                     new_anc = sorted(anc_indices(obj) - before_anc)
